@@ -351,6 +351,34 @@ def apflRounds [DecidableEq ι] (split3 : Key → Key × Key × Key) (seg : List
     (s : ApflServerState σs ι) (cohorts : List (List (Client ι β))) : ApflServerState σs ι :=
   cohorts.foldl (apflRound split3 seg grad copt sopt coef0) s
 
+/-! ### APFL evaluation (`eval_adaptive_personalized_federated_learning`) and mixed histories -/
+
+/-- the params a client is evaluated with: its stored state interpolated with the server params; a
+client without stored state gets the evaluation default (server params, coefficients 0).  The
+lookup is `client_states.get(cid, default)`: evaluation reads the table and never writes it. -/
+def apflEvalParams [DecidableEq ι] (seg : List Nat) (s : ApflServerState σs ι) (cid : ι) : P :=
+  let dflt : ApflClientState := { params := s.params, coef := List.replicate seg.length 0 }
+  let st := (tableGet s.table cid).getD dflt
+  interpolate seg st.coef st.params s.params
+
+/-- one step of an experiment: a training round or an evaluation of some client ids -/
+inductive ApflOp (ι β : Type) where
+  | train (clients : List (Client ι β))
+  | eval (ids : List ι)
+
+/-- the server state after one step (evaluation returns metrics, the state is the caller's and
+stays as it was) -/
+def apflStepOp [DecidableEq ι] (split3 : Key → Key × Key × Key) (seg : List Nat)
+    (grad : P → β → Key → P) (copt : Optimizer σc) (sopt : Optimizer σs) (coef0 : Rat)
+    (s : ApflServerState σs ι) : ApflOp ι β → ApflServerState σs ι
+  | .train clients => apflRound split3 seg grad copt sopt coef0 s clients
+  | .eval _ => s
+
+def apflHistory [DecidableEq ι] (split3 : Key → Key × Key × Key) (seg : List Nat)
+    (grad : P → β → Key → P) (copt : Optimizer σc) (sopt : Optimizer σs) (coef0 : Rat)
+    (s : ApflServerState σs ι) (ops : List (ApflOp ι β)) : ApflServerState σs ι :=
+  ops.foldl (apflStepOp split3 seg grad copt sopt coef0) s
+
 end
 
 end FedjaxVerif.Algorithms
